@@ -1,6 +1,7 @@
 (* Props/C07.v — encodings are self-delimiting: decode consumes exactly what encode produced. *)
 From Coq Require Import NArith ZArith List.
 From Desert Require Import Outcome IO Types Codec CodecB CodecWf TruncProofs CodecRt2 PropLemmas.
+From Desert Require Import History RecordRt RecordChunkedSpec EvolutionSpec C07Lemmas.
 Import ListNotations.
 Open Scope N_scope.
 
@@ -38,7 +39,26 @@ Theorem C07_suffix_independent : forall f E t c r k st v st',
   forall r2, dec a_ops f E t (mkA (c ++ r2) k st) = Ok (v, mkA r2 k st').
 Proof. exact decA_suffix. Qed.
 
+(* the same across versions: a record written by version kw of a legal history and read by version
+   kr leaves exactly the suffix whenever the pair is framed (stored version >= 1, or version 0
+   whose reader knows every written field), all chunks the reader does not know being skipped *)
+Theorem C07_cross_version :
+  forall (E : env) (encf : ty -> encoder) (decf : ty -> adecoder)
+         (w : ty -> val -> bool) (nv : ty -> val -> val),
+    fields_neutral E encf decf w nv ->
+    forall (H : history) (kw kr : nat) vw st b st' s k vs,
+      legal H = true -> all_field_types_wf E H = true ->
+      (kw <= length (h_steps H))%nat -> (kr <= length (h_steps H))%nat ->
+      wf_fields w (r_fields (decl_at H kw)) vw = true ->
+      enc_record encf (decl_at H kw) vw st = Ok (b, st') ->
+      framed H kw kr = true ->
+      expected H kw kr (norm_written nv (r_fields (decl_at H kw)) vw) = Ok vs ->
+      exists st'',
+        dec_record a_ops decf (decl_at H kr) (mkA (b ++ s) k st) = Ok (VNode 0 vs, mkA s k st'').
+Proof. exact c07_cross_version. Qed.
+
 Print Assumptions C07_suffix.
+Print Assumptions C07_cross_version.
 Print Assumptions C07_sequence.
 Print Assumptions C07_consumes_prefix.
 Print Assumptions C07_suffix_independent.
